@@ -307,6 +307,9 @@ type samEvent struct {
 	Want    []samItem `json:"want"`
 	Items   []samItem `json:"items"`
 	Panic   bool      `json:"panic"`
+	Iso     int       `json:"iso"`   // > 0: line iso (position among the items of this mode) was replaced by a malformed line
+	Clean   []int     `json:"clean"` // the file before the corruption
+	CKind   string    `json:"ckind"`
 }
 
 func samText(r *rand.Rand, allowLeadAt bool) string {
@@ -467,7 +470,7 @@ func samDrive(args []string) error {
 		for i := 0; i < nr; i++ {
 			s := samRecord(r)
 			before := samProject(s)
-			ev := samEvent{Sid: sid, Op: "write", Mode: "write", Rec: before, Bytes: []int{}, Floats: [][]int{}, Want: []samItem{}, Items: []samItem{}}
+			ev := samEvent{Sid: sid, Op: "write", Mode: "write", Rec: before, Bytes: []int{}, Floats: [][]int{}, Want: []samItem{}, Items: []samItem{}, Clean: []int{}}
 			buf := &bytes.Buffer{}
 			ev.Panic, _ = catch(func() { ev.WErr = s.Write(buf) != nil })
 			var bm []byte
@@ -491,7 +494,7 @@ func samDrive(args []string) error {
 		}
 		for _, mode := range []string{"header", "records"} {
 			ev := samEvent{Sid: sid, Op: "read", Mode: mode, Rec: empty, BW: []int{}, BM: []int{}, Bytes: ints(file),
-				Floats: samFloatTokens(file), HasWant: true}
+				Floats: samFloatTokens(file), HasWant: true, Clean: []int{}}
 			ev.Want = want
 			if mode == "records" {
 				ev.Want = []samItem{}
@@ -508,6 +511,104 @@ func samDrive(args []string) error {
 			}
 			tw.emit(ev)
 		}
+		// SAM isolation (C11): every record line x every kind of single-line corruption
+		if sid%2 == 0 && nr > 0 && nr <= 6 {
+			lines := bytes.Split(bytes.TrimSuffix(file, []byte("\n")), []byte("\n"))
+			for li, ln := range lines {
+				ln = bytes.TrimSuffix(ln, []byte("\r"))
+				if len(ln) == 0 || ln[0] == '@' {
+					continue
+				}
+				for _, kind := range samCorruptions {
+					bad := samCorruptLine(r, ln, kind)
+					if bad == nil {
+						continue
+					}
+					cl := make([][]byte, len(lines))
+					copy(cl, lines)
+					cl[li] = bad
+					cfile := append(bytes.Join(cl, []byte("\n")), '\n')
+					for _, mode := range []string{"header", "records"} {
+						pos := 0
+						for k := 0; k <= li; k++ {
+							t := bytes.TrimSuffix(lines[k], []byte("\r"))
+							if len(t) > 0 && (mode == "header" || t[0] != '@') {
+								pos++
+							}
+						}
+						ev := samEvent{Sid: sid, Op: "read", Mode: mode, Rec: empty, BW: []int{}, BM: []int{}, Bytes: ints(cfile),
+							Floats: samFloatTokens(append(append([]byte{}, file...), cfile...)), Want: []samItem{}, Iso: pos, Clean: ints(file), CKind: kind}
+						var capped bool
+						ev.Items, ev.Panic, capped = samRead(cfile, mode)
+						if capped {
+							ev.Panic = true
+						}
+						tw.emit(ev)
+					}
+				}
+			}
+		}
 	}
 	return tw.close()
+}
+
+var samCorruptions = []string{"few-fields", "int-flag", "int-pos", "int-mapq", "int-pnext", "int-tlen", "tag-one-colon", "tag-no-colon",
+	"tag-unknown-type", "tag-A-empty", "tag-A-two", "tag-i-text", "tag-H-odd", "tag-H-nonhex", "tag-f-text"}
+
+// samCorruptLine makes one alignment line malformed in the given way (nil: not applicable).
+func samCorruptLine(r *rand.Rand, line []byte, kind string) []byte {
+	f := bytes.Split(line, []byte("\t"))
+	if len(f) < 11 {
+		return nil
+	}
+	cp := func() [][]byte { return append([][]byte{}, f...) }
+	join := func(x [][]byte) []byte { return bytes.Join(x, []byte("\t")) }
+	setInt := func(i int) []byte {
+		x := cp()
+		x[i] = [][]byte{[]byte("x"), []byte(""), []byte("1.5"), []byte("12a"), []byte("--1"), []byte("0x10")}[r.Intn(6)]
+		return join(x)
+	}
+	addTag := func(t string) []byte {
+		x := cp()
+		p := 11 + r.Intn(len(x)-10)
+		x = append(x[:p:p], append([][]byte{[]byte(t)}, x[p:]...)...)
+		return join(x)
+	}
+	switch kind {
+	case "few-fields":
+		cut := join(f[:1+r.Intn(10)])
+		if len(cut) == 0 {
+			return nil // an empty line is skipped, not malformed
+		}
+		return cut
+	case "int-flag":
+		return setInt(1)
+	case "int-pos":
+		return setInt(3)
+	case "int-mapq":
+		return setInt(4)
+	case "int-pnext":
+		return setInt(7)
+	case "int-tlen":
+		return setInt(8)
+	case "tag-one-colon":
+		return addTag("XQ:Z")
+	case "tag-no-colon":
+		return addTag("XQ")
+	case "tag-unknown-type":
+		return addTag("XQ:" + string("Qzb1 "[r.Intn(5)]) + ":1")
+	case "tag-A-empty":
+		return addTag("XQ:A:")
+	case "tag-A-two":
+		return addTag("XQ:A:ab")
+	case "tag-i-text":
+		return addTag("XQ:i:" + []string{"x", "", "1.5", "1e3"}[r.Intn(4)])
+	case "tag-H-odd":
+		return addTag("XQ:H:abc")
+	case "tag-H-nonhex":
+		return addTag("XQ:H:zz")
+	case "tag-f-text":
+		return addTag("XQ:f:" + []string{"x", "", "1.5.2", "--1"}[r.Intn(4)])
+	}
+	return nil
 }
